@@ -147,12 +147,12 @@ macro_rules! fixed_read {
                     assert!(c.position() == $n, "C11:fixed-width reader does not consume exactly N bytes");
                     let sb = s.as_bytes();
                     assert!(sb.len() <= $n, "C11:decoded text longer than the field");
+                    kani::cover!(sb.len() == $n, "unterminated full-width text");
+                    kani::cover!(sb.len() == 0, "empty text");
+                    if sb.len() < $n { assert!(img[sb.len()] == 0, "C11:decoded text ends before the first NUL"); }
                     let i: usize = kani::any();
                     kani::assume(i < sb.len());
                     assert!(sb[i] == img[i] && img[i] != 0, "C11:decoding does not stop at the first NUL");
-                    if sb.len() < $n { assert!(img[sb.len()] == 0, "C11:decoded text ends before the first NUL"); }
-                    kani::cover!(sb.len() == $n, "unterminated full-width text");
-                    kani::cover!(sb.len() == 0, "empty text");
                 }
                 Err(_) => assert!(false, "C11:fixed-width text rejected"),
             }
